@@ -6,14 +6,10 @@ From TskVerif Require Import Base.Common C06.Model C06.BasicProofs C06.ListFacts
 Import ListNotations.
 Open Scope Z_scope.
 
-(* every op except seek(NaN): a NaN position is finding F4, treated at the end *)
-Definition finite_op (o : op) : Prop :=
-  match o with OpSeek NaN => False | OpLLSeek NaN => False | _ => True end.
-
-(* what the property compares: everything of the modelled state that navigation can change
-   and that has a canonical value (the tracked counts and the site list do NOT: F14, F15) *)
-Definition abs (t : tree) : Z * Z * Z * list Z * list Z * Z :=
-  (t_index t, t_left t, t_right t, t_parent t, t_edge t, t_num_edges t).
+(* what the property compares: everything of the modelled state that navigation can change,
+   except the tracked counts (mode [full] only; tied by correspondence) *)
+Definition abs (t : tree) : Z * Z * Z * list Z * list Z * Z * list Z :=
+  (t_index t, t_left t, t_right t, t_parent t, t_edge t, t_num_edges t, t_sites t).
 
 (* THE CURSOR INVARIANT, written out (DESIGN 4/C06) *)
 Definition cursor_ok (ts : tseq) (t : tree) : Prop :=
@@ -33,10 +29,10 @@ Definition spec_state (ts : tseq) (t : tree) : Prop :=
   let k := t_index t in
   (k = -1 /\ t_left t = 0 /\ t_right t = 0 /\
    t_parent t = repeat TSK_NULL (Z.to_nat (ts_N ts + 1)) /\ t_edge t = repeat TSK_NULL (Z.to_nat (ts_N ts + 1)) /\
-   t_num_edges t = 0) \/
+   t_num_edges t = 0 /\ t_sites t = []) \/
   (0 <= k < num_trees ts /\ t_left t = bp ts k /\ t_right t = bp ts (k + 1) /\
    t_parent t = parent_at ts (bp ts k) /\ t_edge t = edges_at ts (bp ts k) /\
-   t_num_edges t = num_edges_at ts (bp ts k)).
+   t_num_edges t = num_edges_at ts (bp ts k) /\ t_sites t = sites_at ts k).
 
 Section Ops.
 Variable ts : tseq.
@@ -56,29 +52,30 @@ Definition inv (t : tree) : Prop := tree_ok ts t /\ ne_ok ts t.
 
 Lemma tree_ok_spec t : inv t -> spec_state ts t.
 Proof.
-  intros [H Hn]. pose proof H as (Hi & Hl & Hr & _). unfold spec_state. unfold ne_ok, cur_x in Hn.
+  intros [H [Hn Hs]]. pose proof H as (Hi & Hl & Hr & _). unfold spec_state. unfold cnt_ok, cur_x in Hn.
+  unfold sites_ok in Hs.
   destruct (tree_ok_cases ts t H) as [(I & (N1 & N2 & N3) & (A1 & A2))|(K & (P1 & P2 & P3 & P4) & (A1 & A2))].
   - left. destruct (outside_null ts V (-1) ltac:(lia)) as [E1 E2].
     rewrite I in Hn. simpl in Hn. rewrite (num_edges_outside ts V (-1)) in Hn by lia.
-    rewrite Hl, Hr, A1, A2, E1, E2. auto 10.
+    rewrite Hs, I. rewrite Hl, Hr, A1, A2, E1, E2. auto 10.
   - right. replace (t_index t =? -1) with false in Hn by lia.
-    rewrite Hl, Hr. rewrite <- Hi in *. auto 10.
+    rewrite Hs. rewrite Hl, Hr. rewrite <- Hi in *. auto 12.
 Qed.
 
 Lemma spec_state_abs t1 t2 : spec_state ts t1 -> spec_state ts t2 -> t_index t1 = t_index t2 -> abs t1 = abs t2.
 Proof.
   unfold spec_state, abs. intros [S1|S1] [S2|S2] E; try lia;
-    destruct S1 as (a1 & a2 & a3 & a4 & a5 & a6); destruct S2 as (b1 & b2 & b3 & b4 & b5 & b6).
-  - rewrite a2, a3, a4, a5, a6, b2, b3, b4, b5, b6, E. reflexivity.
-  - rewrite a2, a3, a4, a5, a6, b2, b3, b4, b5, b6, E. reflexivity.
+    destruct S1 as (a1 & a2 & a3 & a4 & a5 & a6 & a7); destruct S2 as (b1 & b2 & b3 & b4 & b5 & b6 & b7).
+  - rewrite a2, a3, a4, a5, a6, a7, b2, b3, b4, b5, b6, b7, E. reflexivity.
+  - rewrite a2, a3, a4, a5, a6, a7, b2, b3, b4, b5, b6, b7, E. reflexivity.
 Qed.
 
 (* ---- one Python call ---- *)
 
-Lemma py_step_ok st o : inv (fst st) -> inv (snd st) -> finite_op o ->
+Lemma py_step_ok st o : inv (fst st) -> inv (snd st) ->
   exists st' r, py_step core ts st o = Ok (st', r) /\ inv (fst st') /\ inv (snd st').
 Proof.
-  destruct st as [cur other]. simpl fst; simpl snd. intros [Hc Nc] [Ho No] Hf.
+  destruct st as [cur other]. simpl fst; simpl snd. intros [Hc Nc] [Ho No].
   unfold py_step, py_step_fuel. pose proof (seek_fuel_gt ts) as HF. fold T in HF.
   destruct o as [| | | | |x|i| | |x|i].
   - destruct (tree_clear_ok ts V cur Hc) as [C _].
@@ -93,8 +90,9 @@ Proof.
     eexists; eexists; split; [reflexivity|]. simpl. unfold inv. auto.
   - destruct (tree_clear_ok ts V cur Hc) as [C _].
     eexists; eexists; split; [reflexivity|]. simpl. pose proof (ne_ok_clear ts V cur). unfold inv. auto.
-  - destruct x as [v|]; [|destruct Hf]. unfold x_lt_z, x_ge_z.
-    destruct ((v <? 0) || (ts_L ts <=? v)) eqn:G.
+  - destruct x as [v|]; [|eexists; eexists; split; [reflexivity|]; simpl; unfold inv; auto].
+    unfold x_lt_z, x_ge_z.
+    destruct (negb ((0 <=? v) && (v <? ts_L ts))) eqn:G.
     + eexists; eexists; split; [reflexivity|]. simpl. unfold inv. auto.
     + destruct (tree_seek_ok ts V (seek_fuel ts) cur v Hc ltac:(lia) HF) as (t' & S & H' & _ & N').
       rewrite S. cbn [lib_call]. eexists; eexists; split; [reflexivity|]. simpl. unfold inv. auto.
@@ -106,8 +104,8 @@ Proof.
   - eexists; eexists; split; [reflexivity|]. simpl. unfold inv. auto.
   - eexists; eexists; split; [reflexivity|]. simpl. unfold inv. auto.
   - (* the C guard of tsk_tree_seek alone *)
-    destruct x as [v|]; [|destruct Hf].
-    destruct ((v <? 0) || (ts_L ts <=? v)) eqn:G.
+    destruct x as [v|]; [|eexists; eexists; split; [reflexivity|]; simpl; unfold inv; auto].
+    destruct (negb ((0 <=? v) && (v <? ts_L ts))) eqn:G.
     + unfold tree_seek, x_lt_z, x_ge_z. rewrite G. cbn [lib_call].
       eexists; eexists; split; [reflexivity|]. simpl. unfold inv. auto.
     + destruct (tree_seek_ok ts V (seek_fuel ts) cur v Hc ltac:(lia) HF) as (t' & S & H' & _ & N').
@@ -120,12 +118,12 @@ Proof.
       rewrite S. cbn [lib_call]. eexists; eexists; split; [reflexivity|]. simpl. unfold inv. auto.
 Qed.
 
-Lemma run_from_ok ops : Forall finite_op ops -> forall st, inv (fst st) -> inv (snd st) ->
+Lemma run_from_ok ops : forall st, inv (fst st) -> inv (snd st) ->
   exists st' outs, run_from core ts st ops = Ok (st', outs) /\ inv (fst st') /\ inv (snd st').
 Proof.
-  induction 1 as [|o ops Ho Hops IH]; intros st H1 H2.
+  induction ops as [|o ops IH]; intros st H1 H2.
   - exists st, []. auto.
-  - destruct (py_step_ok st o H1 H2 Ho) as (st1 & r & S & A & B).
+  - destruct (py_step_ok st o H1 H2) as (st1 & r & S & A & B).
     destruct (IH st1 A B) as (st2 & outs & R & C & D).
     exists st2, (r :: outs). cbn [run_from]. rewrite S. cbn [bind]. rewrite R. cbn [bind]. auto.
 Qed.
@@ -133,11 +131,9 @@ Qed.
 Lemma inv_init : inv (tree_init ts).
 Proof. split; [apply (tree_init_ok ts V)|apply (ne_ok_init ts V)]. Qed.
 
-Lemma run_ok ops : Forall finite_op ops ->
+Lemma run_ok ops :
   exists st outs, run core ts ops = Ok (st, outs) /\ inv (fst st) /\ inv (snd st).
-Proof.
-  intros H. apply run_from_ok; [exact H| |]; apply inv_init.
-Qed.
+Proof. apply run_from_ok; apply inv_init. Qed.
 
 Lemma run_from_app ops1 ops2 st st1 o1 :
   run_from core ts st ops1 = Ok (st1, o1) ->
@@ -168,27 +164,11 @@ Lemma tree_seek_mono m x t t' f : tree_seek f m ts t x = Ok t' ->
   forall f', (f <= f')%nat -> tree_seek f' m ts t x = Ok t'.
 Proof.
   unfold tree_seek, tree_seek_linear. intros H f' Hf.
-  destruct (x_lt_z x 0 || x_ge_z x (ts_L ts)); [discriminate|].
+  destruct (negb (x_ge_z x 0 && x_lt_z x (ts_L ts))); [discriminate|].
   destruct (t_index t =? -1); [exact H|].
   destruct (x_lt_z x (t_left t)); cbv iota beta in *;
     match goal with |- context [if ?c then _ else _] => destruct c end;
     eapply seek_loop_mono; eauto.
-Qed.
-
-(* with a NaN position tsk_tree_seek_linear never leaves its loop *)
-Lemma seek_loop_nan : forall fuel t, tree_ok ts t -> seek_loop fuel (tree_prev core ts) NaN t = Fuel.
-Proof.
-  induction fuel as [|f IH]; intros t H; [reflexivity|].
-  cbn [seek_loop]. unfold in_interval, z_le_x. cbn [andb].
-  destruct (tree_prev_ok ts V t H) as (t1 & r & S & H1 & _). rewrite S. cbn [bind]. apply IH. exact H1.
-Qed.
-
-Lemma seek_nan_fuel t other fuel : tree_ok ts t -> t_index t <> -1 ->
-  py_step_fuel fuel core ts (t, other) (OpSeek NaN) = Fuel.
-Proof.
-  intros H N. unfold py_step_fuel, tree_seek, tree_seek_linear. cbn [x_lt_z x_ge_z orb].
-  replace (t_index t =? -1) with false by lia. cbn [c_sub c_add c_le].
-  rewrite seek_loop_nan by exact H. reflexivity.
 Qed.
 
 End Ops.
@@ -197,20 +177,20 @@ End Ops.
 (* the theorems of Props/C06.v                                                      *)
 
 (* (a) after any op sequence both trees satisfy the cursor invariant *)
-Lemma cursor_invariant_proof ts ops : valid_tsb ts = true -> Forall finite_op ops ->
+Lemma cursor_invariant_proof ts ops : valid_tsb ts = true ->
   exists st outs, run core ts ops = Ok (st, outs) /\ cursor_ok ts (fst st) /\ cursor_ok ts (snd st).
 Proof.
-  intros Hv Hf. pose proof (valid_tsb_sound ts Hv) as V.
-  destruct (run_ok ts V ops Hf) as (st & outs & R & A & B).
+  intros Hv. pose proof (valid_tsb_sound ts Hv) as V.
+  destruct (run_ok ts V ops) as (st & outs & R & A & B).
   exists st, outs. split; [exact R|]. destruct A, B. split; apply tree_ok_cursor; assumption.
 Qed.
 
 (* (b) the state is the SPEC state of its index ... *)
-Lemma nav_state_is_spec_proof ts ops : valid_tsb ts = true -> Forall finite_op ops ->
+Lemma nav_state_is_spec_proof ts ops : valid_tsb ts = true ->
   exists st outs, run core ts ops = Ok (st, outs) /\ spec_state ts (fst st) /\ spec_state ts (snd st).
 Proof.
-  intros Hv Hf. pose proof (valid_tsb_sound ts Hv) as V.
-  destruct (run_ok ts V ops Hf) as (st & outs & R & A & B).
+  intros Hv. pose proof (valid_tsb_sound ts Hv) as V.
+  destruct (run_ok ts V ops) as (st & outs & R & A & B).
   exists st, outs. split; [exact R|]. split; apply (tree_ok_spec ts V); assumption.
 Qed.
 
@@ -218,18 +198,15 @@ Qed.
    Tree; a new Tree for the null state) *)
 Definition fresh_ops (k : Z) : list op := if k =? -1 then [] else [OpSeekIndex k].
 
-Lemma fresh_ops_finite k : Forall finite_op (fresh_ops k).
-Proof. unfold fresh_ops. destruct (k =? -1); repeat constructor. Qed.
-
-Lemma nav_canonical_proof ts ops : valid_tsb ts = true -> Forall finite_op ops ->
+Lemma nav_canonical_proof ts ops : valid_tsb ts = true ->
   exists st outs, run core ts ops = Ok (st, outs) /\
   exists fr outs', run core ts (fresh_ops (t_index (fst st))) = Ok (fr, outs') /\
                    abs (fst st) = abs (fst fr).
 Proof.
-  intros Hv Hf. pose proof (valid_tsb_sound ts Hv) as V.
-  destruct (run_ok ts V ops Hf) as (st & outs & R & A & B).
+  intros Hv. pose proof (valid_tsb_sound ts Hv) as V.
+  destruct (run_ok ts V ops) as (st & outs & R & A & B).
   exists st, outs. split; [exact R|].
-  destruct (run_ok ts V _ (fresh_ops_finite (t_index (fst st)))) as (fr & outs' & R' & A' & B').
+  destruct (run_ok ts V (fresh_ops (t_index (fst st)))) as (fr & outs' & R' & A' & B').
   exists fr, outs'. split; [exact R'|].
   apply (spec_state_abs ts); try (apply (tree_ok_spec ts V); assumption).
   (* the fresh run ends at the same index *)
@@ -246,14 +223,14 @@ Proof.
 Qed.
 
 (* (c) index transitions of next / prev *)
-Lemma next_prev_index_proof ts ops o : valid_tsb ts = true -> Forall finite_op ops ->
+Lemma next_prev_index_proof ts ops o : valid_tsb ts = true ->
   o = OpNext \/ o = OpPrev ->
   exists st outs st' r, run core ts ops = Ok (st, outs) /\ py_step core ts st o = Ok (st', r) /\
     t_index (fst st') = (match o with OpNext => nxt ts | _ => prv ts end) (t_index (fst st)) /\
     (r = 0 <-> t_index (fst st') = -1) /\ (r = 0 \/ r = 1).
 Proof.
-  intros Hv Hf Ho. pose proof (valid_tsb_sound ts Hv) as V.
-  destruct (run_ok ts V ops Hf) as ([cur other] & outs & R & A & B). simpl in A, B.
+  intros Hv Ho. pose proof (valid_tsb_sound ts Hv) as V.
+  destruct (run_ok ts V ops) as ([cur other] & outs & R & A & B). simpl in A, B.
   exists (cur, other), outs.
   destruct Ho; subst o; unfold py_step, py_step_fuel.
   - destruct (tree_next_ok ts V cur (proj1 A)) as (t' & r & S & H' & I' & _). rewrite S. cbn [bind].
@@ -265,15 +242,15 @@ Proof.
 Qed.
 
 (* (d) seek(x) with 0 <= x < L returns None and lands on the tree containing x *)
-Lemma seek_lands_proof ts ops v : valid_tsb ts = true -> Forall finite_op ops -> 0 <= v < ts_L ts ->
+Lemma seek_lands_proof ts ops v : valid_tsb ts = true -> 0 <= v < ts_L ts ->
   exists st outs st', run core ts ops = Ok (st, outs) /\
     py_step core ts st (OpSeek (Fin v)) = Ok (st', RET_NONE) /\
     t_left (fst st') <= v < t_right (fst st') /\ snd st' = snd st.
 Proof.
-  intros Hv Hf Hr. pose proof (valid_tsb_sound ts Hv) as V.
-  destruct (run_ok ts V ops Hf) as ([cur other] & outs & R & A & B). simpl in A, B.
+  intros Hv Hr. pose proof (valid_tsb_sound ts Hv) as V.
+  destruct (run_ok ts V ops) as ([cur other] & outs & R & A & B). simpl in A, B.
   exists (cur, other), outs. unfold py_step, py_step_fuel, x_lt_z, x_ge_z.
-  replace ((v <? 0) || (ts_L ts <=? v)) with false by lia.
+  replace (negb ((0 <=? v) && (v <? ts_L ts))) with false by lia.
   destruct (tree_seek_ok ts V (seek_fuel ts) cur v (proj1 A) Hr (seek_fuel_gt ts)) as (t' & S & H' & (K & Bd) & _).
   rewrite S. cbn [lib_call]. eexists. split; [exact R|]. split; [reflexivity|]. simpl. split; [|reflexivity].
   destruct (tree_ok_interval ts t' H') as [(I & _)|(_ & L1 & R1)]; [lia|]. rewrite L1, R1. exact Bd.
@@ -281,28 +258,66 @@ Qed.
 
 (* (e) the linear seek never needs more than num_trees + 1 loop tests: every fuel above
    num_trees gives the same (non-Fuel) result *)
-Lemma seek_linear_terminates_proof ts ops v : valid_tsb ts = true -> Forall finite_op ops ->
+Lemma seek_linear_terminates_proof ts ops v : valid_tsb ts = true ->
   0 <= v < ts_L ts ->
   exists st outs t', run core ts ops = Ok (st, outs) /\
     forall fuel, Z.of_nat fuel >= num_trees ts + 1 -> tree_seek fuel core ts (fst st) (Fin v) = Ok t'.
 Proof.
-  intros Hv Hf Hr. pose proof (valid_tsb_sound ts Hv) as V.
-  destruct (run_ok ts V ops Hf) as (st & outs & R & A & B).
+  intros Hv Hr. pose proof (valid_tsb_sound ts Hv) as V.
+  destruct (run_ok ts V ops) as (st & outs & R & A & B).
   pose proof (v_T ts V) as HT.
   destruct (tree_seek_ok ts V (Z.to_nat (num_trees ts + 1)) (fst st) v (proj1 A) Hr ltac:(lia)) as (t' & S & _).
   exists st, outs, t'. split; [exact R|]. intros fuel Hfu.
   eapply tree_seek_mono; [exact S|lia].
 Qed.
 
-(* F4: a NaN position passes both guards; from any non-null reachable state no amount of
-   fuel is enough *)
-Lemma seek_nan_diverges_proof ts ops : valid_tsb ts = true -> Forall finite_op ops ->
-  exists st outs, run core ts ops = Ok (st, outs) /\
-    (t_index (fst st) <> -1 -> forall fuel, py_step_fuel fuel core ts st (OpSeek NaN) = Fuel).
+(* seek is TOTAL on every argument (fix eee123e): in every reachable state Tree.seek(x)
+   either lands on the tree containing x (0 <= x < L) or raises ValueError and leaves both
+   trees untouched — in particular for x = NaN; the low-level call raises LibraryError. *)
+Definition in_range (ts : tseq) (x : coord) : Prop :=
+  match x with Fin v => 0 <= v < ts_L ts | NaN => False end.
+
+Lemma seek_total_proof ts ops x : valid_tsb ts = true ->
+  exists st outs st' r, run core ts ops = Ok (st, outs) /\
+    py_step core ts st (OpSeek x) = Ok (st', r) /\
+    ((in_range ts x /\ r = RET_NONE /\ in_interval (fst st') x = true /\ snd st' = snd st) \/
+     (~ in_range ts x /\ r = RAISE_VALUE_ERROR /\ st' = st)).
 Proof.
-  intros Hv Hf. pose proof (valid_tsb_sound ts Hv) as V.
-  destruct (run_ok ts V ops Hf) as ([cur other] & outs & R & A & B). simpl in A, B.
-  exists (cur, other), outs. split; [exact R|]. intros N fuel. apply (seek_nan_fuel ts V); [exact (proj1 A)|exact N].
+  intros Hv. pose proof (valid_tsb_sound ts Hv) as V.
+  destruct (run_ok ts V ops) as ([cur other] & outs & R & A & B). simpl in A, B.
+  exists (cur, other), outs. unfold py_step, py_step_fuel.
+  destruct x as [v|].
+  - unfold x_lt_z, x_ge_z. destruct (negb ((0 <=? v) && (v <? ts_L ts))) eqn:G.
+    + eexists; eexists. split; [exact R|]. split; [reflexivity|]. right. simpl. split; [lia|auto].
+    + assert (Hr : 0 <= v < ts_L ts) by lia.
+      destruct (tree_seek_ok ts V (seek_fuel ts) cur v (proj1 A) Hr (seek_fuel_gt ts)) as (t' & S & H' & (K & Bd) & _).
+      rewrite S. cbn [lib_call]. eexists; eexists. split; [exact R|]. split; [reflexivity|]. left.
+      simpl. split; [exact Hr|]. split; [reflexivity|]. split; [|reflexivity].
+      unfold in_interval, z_le_x, x_lt_z.
+      destruct (tree_ok_interval ts t' H') as [(I & _)|(_ & L1 & R1)]; [lia|]. rewrite L1, R1. lia.
+  - eexists; eexists. split; [exact R|]. split; [reflexivity|]. right. simpl. auto.
+Qed.
+
+Lemma ll_seek_total_proof ts ops x : valid_tsb ts = true ->
+  exists st outs st' r, run core ts ops = Ok (st, outs) /\
+    py_step core ts st (OpLLSeek x) = Ok (st', r) /\
+    ((in_range ts x /\ r = RET_NONE /\ in_interval (fst st') x = true /\ snd st' = snd st) \/
+     (~ in_range ts x /\ r = RAISE_LIBRARY_ERROR /\ st' = st)).
+Proof.
+  intros Hv. pose proof (valid_tsb_sound ts Hv) as V.
+  destruct (run_ok ts V ops) as ([cur other] & outs & R & A & B). simpl in A, B.
+  exists (cur, other), outs. unfold py_step, py_step_fuel.
+  destruct x as [v|].
+  - destruct (negb ((0 <=? v) && (v <? ts_L ts))) eqn:G.
+    + unfold tree_seek, x_lt_z, x_ge_z. rewrite G. cbn [lib_call].
+      eexists; eexists. split; [exact R|]. split; [reflexivity|]. right. simpl. split; [lia|auto].
+    + assert (Hr : 0 <= v < ts_L ts) by lia.
+      destruct (tree_seek_ok ts V (seek_fuel ts) cur v (proj1 A) Hr (seek_fuel_gt ts)) as (t' & S & H' & (K & Bd) & _).
+      rewrite S. cbn [lib_call]. eexists; eexists. split; [exact R|]. split; [reflexivity|]. left.
+      simpl. split; [exact Hr|]. split; [reflexivity|]. split; [|reflexivity].
+      unfold in_interval, z_le_x, x_lt_z.
+      destruct (tree_ok_interval ts t' H') as [(I & _)|(_ & L1 & R1)]; [lia|]. rewrite L1, R1. lia.
+  - eexists; eexists. split; [exact R|]. split; [reflexivity|]. right. simpl. auto.
 Qed.
 
 (* ------------------------------------------------------------------------------ *)
@@ -322,73 +337,42 @@ Proof. vm_compute. reflexivity. Qed.
 
 Definition ex_ops : list op :=
   [OpLast; OpPrev; OpSeek (Fin 1); OpNext; OpCopy; OpSeekIndex (-1); OpSwap; OpPrev; OpPrev; OpPrev;
-   OpSeek (Fin 7); OpClear; OpLLSeek (Fin 5); OpLLSeekIndex 9; OpLLSeek (Fin 8)].
-
-Example ex_ops_finite : Forall finite_op ex_ops.
-Proof. repeat constructor. Qed.
+   OpSeek (Fin 7); OpClear; OpLLSeek (Fin 5); OpLLSeekIndex 9; OpLLSeek (Fin 8); OpSeek NaN; OpLLSeek NaN].
 
 (* the run visits non-null trees, reverses direction, wraps through null, seeks from null
    into the second half; it ends on tree 2 = [4, 6) with the other tree on tree 3 *)
 Example ex_run :
   match run core ex_ts ex_ops with
-  | Ok (st, outs) => abs (fst st) = (2, 4, 6, [4; 4; 3; 4; -1; -1], [4; 5; 2; 3; -1; -1], 4) /\
-                     t_index (snd st) = 3 /\ outs = [2; 1; 2; 1; 2; 2; 2; 1; 0; 1; 2; 2; 2; -3; -3]
+  | Ok (st, outs) => abs (fst st) = (2, 4, 6, [4; 4; 3; 4; -1; -1], [4; 5; 2; 3; -1; -1], 4, [1]) /\
+                     t_index (snd st) = 3 /\ outs = [2; 1; 2; 1; 2; 2; 2; 1; 0; 1; 2; 2; 2; -3; -3; -1; -3]
   | _ => False
   end.
 Proof. vm_compute. repeat split. Qed.
 
-(* F14: after first(); clear() the tree still shows the sites of tree 0 *)
-Lemma nav_sites_refuted_proof :
-  exists ts ops st outs, valid_tsb ts = true /\ Forall finite_op ops /\
-    run core ts ops = Ok (st, outs) /\ t_index (fst st) = -1 /\
-    t_sites (fst st) <> t_sites (tree_init ts).
-Proof.
-  exists ex_ts, [OpFirst; OpClear].
-  destruct (run core ex_ts [OpFirst; OpClear]) as [[st outs]| | |] eqn:E; vm_compute in E; try discriminate.
-  injection E as <- <-. eexists; eexists. split; [exact ex_ts_valid|]. split; [repeat constructor|].
-  split; [reflexivity|]. split; [reflexivity|]. vm_compute. discriminate.
-Qed.
+(* the three defects the pinned code had (F4, F14, F15) are repaired in /repo and in this
+   model; what used to be refutation witnesses are now positive examples *)
 
-(* F15: with tracked sample 1 and the internal sample 3, first(); last() and a fresh
-   seek_index(3) end on the same tree with different tracked counts *)
-Lemma nav_tracked_refuted_proof :
-  exists ts ops st outs fr outs', valid_tsb ts = true /\ Forall finite_op ops /\
-    run full ts ops = Ok (st, outs) /\
-    run full ts (fresh_ops (t_index (fst st))) = Ok (fr, outs') /\
-    t_index (fst st) = t_index (fst fr) /\ t_tracked (fst st) <> t_tracked (fst fr).
-Proof.
-  exists ex_ts, [OpFirst; OpLast].
-  destruct (run full ex_ts [OpFirst; OpLast]) as [[st outs]| | |] eqn:E; vm_compute in E; try discriminate.
-  injection E as <- <-.
-  destruct (run full ex_ts (fresh_ops 3)) as [[fr outs']| | |] eqn:E'; vm_compute in E'; try discriminate.
-  injection E' as <- <-.
-  eexists; eexists; eexists; eexists. split; [exact ex_ts_valid|]. split; [repeat constructor|].
-  split; [reflexivity|]. split; [reflexivity|]. split; [reflexivity|]. vm_compute. discriminate.
-Qed.
+(* first(); clear(): the null tree has no sites (was F14) *)
+Example ex_sites_after_clear :
+  match run core ex_ts [OpFirst; OpClear] with
+  | Ok (st, _) => t_sites (fst st) = t_sites (tree_init ex_ts) /\ t_sites (fst st) = []
+  | _ => False
+  end.
+Proof. vm_compute. split; reflexivity. Qed.
 
-(* F4 witness: from tree 0 of ex_ts, seek(NaN) exhausts every fuel *)
-Lemma seek_nan_diverges_refuted_proof :
-  exists ts ops st outs, valid_tsb ts = true /\ Forall finite_op ops /\
-    run core ts ops = Ok (st, outs) /\ t_index (fst st) = 0 /\
-    forall fuel, py_step_fuel fuel core ts st (OpSeek NaN) = Fuel.
-Proof.
-  destruct (seek_nan_diverges_proof ex_ts [OpFirst] ex_ts_valid ltac:(repeat constructor))
-    as (st & outs & R & D).
-  assert (I : t_index (fst st) = 0).
-  { revert R. destruct (run core ex_ts [OpFirst]) as [[s o]| | |] eqn:E; vm_compute in E; try discriminate.
-    injection E as <- <-. intros R. injection R as <- _. reflexivity. }
-  exists ex_ts, [OpFirst], st, outs. split; [exact ex_ts_valid|]. split; [repeat constructor|].
-  split; [exact R|]. split; [exact I|]. apply D. lia.
-Qed.
+(* first(); last() and a fresh seek_index end with the same tracked counts (was F15;
+   tracked sample 1, internal sample 3; mode full) *)
+Example ex_tracked_after_clear :
+  match run full ex_ts [OpFirst; OpLast], run full ex_ts [OpSeekIndex 3] with
+  | Ok (st, _), Ok (fr, _) => t_index (fst st) = 3 /\ t_tracked (fst st) = t_tracked (fst fr)
+  | _, _ => False
+  end.
+Proof. vm_compute. split; reflexivity. Qed.
 
-(* F4, second facet: from the NULL state seek(NaN) is accepted and silently lands on tree 0
-   (tsk_search_sorted returns 0, `x <= L/2` is false, backward scan) *)
-Lemma seek_nan_accepted_refuted_proof :
-  exists ts st', valid_tsb ts = true /\
-    py_step core ts (init_state ts) (OpSeek NaN) = Ok (st', RET_NONE) /\ t_index (fst st') = 0.
-Proof.
-  exists ex_ts.
-  destruct (py_step core ex_ts (init_state ex_ts) (OpSeek NaN)) as [[st' r]| | |] eqn:E;
-    vm_compute in E; try discriminate.
-  injection E as <- <-. eexists. split; [exact ex_ts_valid|]. split; reflexivity.
-Qed.
+(* seek(NaN) from a tree and from the null state: ValueError, state unchanged (was F4) *)
+Example ex_seek_nan :
+  match run core ex_ts [OpFirst; OpSeek NaN; OpClear; OpSeek NaN] with
+  | Ok (st, outs) => outs = [2; -1; 2; -1] /\ t_index (fst st) = -1
+  | _ => False
+  end.
+Proof. vm_compute. split; reflexivity. Qed.
